@@ -38,6 +38,7 @@ type runInfo struct {
 	goInstr    *ssa.Go       // the watcher start
 	closure    *ssa.Function // watcher body
 	bindings   []ssa.Value
+	depth      int
 	flagCell   ssa.Value // *int32 cell accessed atomically
 	errCell    ssa.Value // *error cell written by the watcher
 	deferInstr *ssa.Defer
@@ -227,8 +228,8 @@ type autoResult struct {
 	accepted   map[string]int
 	visited    int
 	// epochs in which the loads feeding the stop tests were executed
-	loadStates map[*ssa.UnOp]map[int]bool
-	usedLoads  map[*ssa.UnOp]string
+	loadStates map[ssa.Instruction]map[int]bool
+	usedLoads  map[ssa.Instruction]string
 	events     []string
 	hasCheck   bool
 }
@@ -236,7 +237,7 @@ type autoResult struct {
 type condClass struct {
 	kind  string // cancel | bpnil | bp | halt | ""
 	truth bool   // meaning of the If's true successor: cancelled / map non-nil / is breakpoint / halted
-	loads []*ssa.UnOp
+	loads []ssa.Instruction
 }
 
 // classifyCond recognises the tests of Run's loop.
@@ -252,7 +253,7 @@ func (ri *runInfo) classifyCond(v ssa.Value) condClass {
 	}
 	// halted indication: load of cpu.HALT
 	if p, u, ok := ri.loadOfCPUField(v); ok && p == "HALT" {
-		return condClass{kind: "halt", truth: !neg, loads: []*ssa.UnOp{u}}
+		return condClass{kind: "halt", truth: !neg, loads: []ssa.Instruction{u}}
 	}
 	// comma-ok map lookup in cpu.BreakPoints keyed by cpu.PC
 	if e, ok := v.(*ssa.Extract); ok && e.Index == 1 {
@@ -260,7 +261,7 @@ func (ri *runInfo) classifyCond(v ssa.Value) condClass {
 			mp, mu, ok1 := ri.loadOfCPUField(lk.X)
 			kp, ku, ok2 := ri.loadOfCPUField(lk.Index)
 			if ok1 && ok2 && mp == "BreakPoints" && kp == "PC" {
-				return condClass{kind: "bp", truth: !neg, loads: []*ssa.UnOp{mu, ku}}
+				return condClass{kind: "bp", truth: !neg, loads: []ssa.Instruction{mu, ku}}
 			}
 		}
 	}
@@ -273,7 +274,7 @@ func (ri *runInfo) classifyCond(v ssa.Value) condClass {
 		// cpu.BreakPoints != nil
 		if isNilConst(y) {
 			if p, u, ok := ri.loadOfCPUField(x); ok && p == "BreakPoints" {
-				return condClass{kind: "bpnil", truth: isNE != neg, loads: []*ssa.UnOp{u}}
+				return condClass{kind: "bpnil", truth: isNE != neg, loads: []ssa.Instruction{u}}
 			}
 			// ctx.Err() != nil
 			if c, ok := x.(*ssa.Call); ok && c.Call.IsInvoke() && c.Call.Method.Name() == "Err" && ri.ctxOrigin(c.Call.Value, ri.run) != "" {
@@ -290,6 +291,49 @@ func (ri *runInfo) classifyCond(v ssa.Value) condClass {
 			}
 		}
 	}
+	// a pure helper method of the CPU whose result is one of the tests above
+	// (e.g. cpu.atBreakPoint()): classified through its return values; its
+	// loads execute at the call
+	if c, ok := v.(*ssa.Call); ok && ri.depth < 3 {
+		if cal := c.Call.StaticCallee(); cal != nil && cal != ri.step && load.InModule(cal) && cal.Blocks != nil &&
+			len(c.Call.Args) > 0 && c.Call.Args[0] == ssa.Value(ri.cpu) && len(cal.Params) > 0 && pureHelper(cal) {
+			sub := &runInfo{cx: ri.cx, run: cal, cpu: cal.Params[0], ctx: ri.ctx, step: ri.step, depth: ri.depth + 1}
+			var vals []ssa.Value
+			for _, b := range cal.Blocks {
+				for _, in := range b.Instrs {
+					if r, ok := in.(*ssa.Return); ok && len(r.Results) == 1 {
+						vals = append(vals, flattenPhi(r.Results[0], 0)...)
+					}
+				}
+			}
+			var agg condClass
+			okAll := len(vals) > 0
+			for _, rv := range vals {
+				if k, isC := rv.(*ssa.Const); isC && k.Value != nil && k.Value.Kind() == constant.Bool {
+					continue // checked against the classification below
+				}
+				cc := sub.classifyCond(rv)
+				if cc.kind == "" || agg.kind != "" && (agg.kind != cc.kind || agg.truth != cc.truth) {
+					okAll = false
+					break
+				}
+				agg = cc
+			}
+			if okAll && agg.kind != "" {
+				for _, rv := range vals {
+					if k, isC := rv.(*ssa.Const); isC && k.Value != nil && k.Value.Kind() == constant.Bool {
+						// a constant result must mean "condition does not hold"
+						if constant.BoolVal(k.Value) == agg.truth {
+							okAll = false
+						}
+					}
+				}
+			}
+			if okAll && agg.kind != "" {
+				return condClass{kind: agg.kind, truth: agg.truth != neg, loads: []ssa.Instruction{c}}
+			}
+		}
+	}
 	// atomic.Bool.Load()
 	if c, ok := v.(*ssa.Call); ok && isAtomicLoad(&c.Call) {
 		if len(c.Call.Args) > 0 {
@@ -298,6 +342,38 @@ func (ri *runInfo) classifyCond(v ssa.Value) condClass {
 		return condClass{kind: "cancel", truth: !neg}
 	}
 	return condClass{}
+}
+
+// pureHelper: no stores (except to locals), no calls except builtins.
+func pureHelper(fn *ssa.Function) bool {
+	for _, b := range fn.Blocks {
+		for _, in := range b.Instrs {
+			switch x := in.(type) {
+			case *ssa.Store:
+				if _, ok := x.Addr.(*ssa.Alloc); !ok {
+					return false
+				}
+			case ssa.CallInstruction:
+				if _, ok := x.Common().Value.(*ssa.Builtin); !ok {
+					return false
+				}
+			case *ssa.MapUpdate, *ssa.Send, *ssa.Go, *ssa.Defer, *ssa.Panic:
+				return false
+			}
+		}
+	}
+	return true
+}
+
+func flattenPhi(v ssa.Value, depth int) []ssa.Value {
+	if p, ok := v.(*ssa.Phi); ok && depth < 4 {
+		var out []ssa.Value
+		for _, e := range p.Edges {
+			out = append(out, flattenPhi(e, depth+1)...)
+		}
+		return out
+	}
+	return []ssa.Value{v}
 }
 
 func isZeroConst(v ssa.Value) bool {
@@ -359,7 +435,7 @@ func (ri *runInfo) returnClass(ret *ssa.Return) string {
 }
 
 func (ri *runInfo) explore() *autoResult {
-	res := &autoResult{accepted: map[string]int{}, loadStates: map[*ssa.UnOp]map[int]bool{}, usedLoads: map[*ssa.UnOp]string{}}
+	res := &autoResult{accepted: map[string]int{}, loadStates: map[ssa.Instruction]map[int]bool{}, usedLoads: map[ssa.Instruction]string{}}
 	type node struct {
 		b *ssa.BasicBlock
 		q int
@@ -416,6 +492,12 @@ func (ri *runInfo) explore() *autoResult {
 					}
 				}
 			case *ssa.Call:
+				if cal := x.Call.StaticCallee(); cal != nil && cal != ri.step && load.InModule(cal) && len(x.Call.Args) > 0 && x.Call.Args[0] == ssa.Value(ri.cpu) {
+					if res.loadStates[x] == nil {
+						res.loadStates[x] = map[int]bool{}
+					}
+					res.loadStates[x][q] = true
+				}
 				if x.Call.StaticCallee() == ri.step && len(x.Call.Args) > 0 && x.Call.Args[0] == ssa.Value(ri.cpu) {
 					switch q {
 					case qChecked:
@@ -554,7 +636,10 @@ func c08(cx *Ctx, r *ev.Report) {
 	for l, kind := range res.usedLoads {
 		for q := range res.loadStates[l] {
 			if q != qStepped && q != qNoBP {
-				p, _ := ri.cpuField(l.X)
+				p := "state (helper call)"
+				if u, ok := l.(*ssa.UnOp); ok {
+					p, _ = ri.cpuField(u.X)
+				}
 				det = append(det, fmt.Sprintf("%s: the load of CPU.%s used by the %s test can execute in state %s, i.e. before the Step whose result it should reflect", cx.P.Pos(l.Pos()), p, kind, qNames[q]))
 			}
 		}
@@ -574,7 +659,7 @@ func c08(cx *Ctx, r *ev.Report) {
 	}
 	sort.Strings(det)
 	r.Check(len(det) == 0, "C08/fresh-reads/func=(*CPU).Run", ruleF, pos, "shape", det...)
-	r.AddFloor("stop_test_loads", len(res.usedLoads), 3)
+	r.AddFloor("stop_test_loads", len(res.usedLoads), 2)
 	// only Step touches the CPU
 	ruleO := "ONLY-STEP: Run and its closures use the receiver only to clear HALT on entry, to read PC/BreakPoints/HALT, and as the receiver of Step"
 	det = nil
@@ -591,6 +676,9 @@ func c08(cx *Ctx, r *ev.Report) {
 					case *ssa.Call:
 						if x.Call.StaticCallee() == ri.step {
 							continue
+						}
+						if cal := x.Call.StaticCallee(); cal != nil && load.InModule(cal) && cal.Blocks != nil && pureHelper(cal) {
+							continue // a read-only helper
 						}
 						det = append(det, fmt.Sprintf("%s: the CPU is passed to %s", cx.P.Pos(in.Pos()), x.Call.Value.Name()))
 					case *ssa.DebugRef:
